@@ -95,12 +95,14 @@ inductive Yield where
 abbrev Fn := V → Except Err V
 abbrev BaseFn := V → Except Err Yield
 
-/-- the `sep` argument of `split_iter`: `None` (groups separators), a scalar, or an
-    iterable of separators (turned into a frozenset) -/
+/-- the `sep` argument of `split_iter`: `None` (groups separators), a scalar, an
+    iterable of separators (turned into a frozenset), or a callable (`sep_func = sep`: called
+    on the item itself, not evaluated as a glom spec; its result is used for its truth value) -/
 inductive Sep where
   | none
   | scalar (v : V)
   | set (vs : List V)
+  | fn (f : V → Except Err V)
 
 /-- a stage: which iterator the callback builds, with its static arguments -/
 inductive Kind where
@@ -154,6 +156,7 @@ def isSepE (sep : Sep) (x : V) : Except Err Bool :=
   | .none => .ok (x == V.none)
   | .scalar v => .ok (x == v)
   | .set vs => if x.hashable then .ok (vs.contains x) else .error "TypeError"
+  | .fn f => (match f x with | .ok y => .ok y.truthy | .error e => .error e)
 
 def padTo (size : Nat) (fill : Option V) (c : List V) : List V :=
   match fill with
